@@ -32,7 +32,7 @@ let rec nat_of_int k = if k <= 0 then O else S (nat_of_int (k - 1))
 
 let nm = n_of_str
 let lit_s s = SbLiteral (SbLStr (nm s))
-let var s = SbVariable (nm s)
+let var s = SbVariable (nm s, [])
 let lnum = SbLiteral SbLNum
 let marker = SbThrow (lit_s "SBMARK")
 
@@ -51,13 +51,17 @@ let fixture (extra_globals : (sb_name * sb_val) list) (recv_ty : sb_name) (obj_f
     sbs_extern = []; sbs_local = [ [ (nm "host", SbVObj (ty_host, SbShared (nat_of_int 3))); (nm "obj", SbVObj (ty_host, SbShared (nat_of_int 3))) ] ];
     sbs_calls = []; sbs_reads = []; sbs_choices = [] }
 
+(* [sbfr_top]: is the frame on top of the frame stack sandboxed while the user's code runs - from the source facts
+   (frame declarations of GetFilterTargets/FilteredAddTarget/EvaluateFilter, ProcessEvent, Push, ExecuteScriptHelper) *)
 let frame_of mode =
   if mode = "console" then
-    { sbfr_sandboxed = true; sbfr_self = SbVObj (ty_dict, SbLocal O); sbfr_locals = Some (SbVObj (ty_dict, SbLocal O)) }
-  else if mode = "filter" then
-    { sbfr_sandboxed = true; sbfr_self = SbVObj (ty_ns, SbLocal O); sbfr_locals = None }
+    { sbfr_sandboxed = true; sbfr_top = sb_cur_console_top; sbfr_self = SbVObj (ty_dict, SbLocal O);
+      sbfr_locals = Some (SbVObj (ty_dict, SbLocal O)) }
+  else if mode = "filter" || mode = "filterperm" then
+    { sbfr_sandboxed = true; sbfr_top = sb_cur_filter_top; sbfr_self = SbVObj (ty_ns, SbLocal O); sbfr_locals = None }
   else
-    { sbfr_sandboxed = true; sbfr_self = SbVObj (ty_ns, SbLocal O); sbfr_locals = Some (SbVObj (ty_dict, SbLocal O)) }
+    { sbfr_sandboxed = true; sbfr_top = (if mode = "inbox" then sb_cur_inbox_top else sb_cur_event_top);
+      sbfr_self = SbVObj (ty_ns, SbLocal O); sbfr_locals = Some (SbVObj (ty_dict, SbLocal O)) }
 
 (* ---- statement forms: AST with the sub-expression [m] where the generator puts the marker resp. a plain value ---- *)
 let glob = SbGetScope SbScopeGlobal
@@ -126,7 +130,7 @@ let probe_model (a : args) : (sb_expr * sb_st) option =
     let cbname = hexs a "cbn" in
     let callee, extra =
       match str a "recv" "none" with
-      | "none" -> SbVariable fn, [ (fn, SbVFun (SbNative fn)) ]
+      | "none" -> SbVariable (fn, []), [ (fn, SbVFun (SbNative fn)) ]
       | "lit" ->
         let r =
           if rty = ty_array then SbArray [ lnum; lnum ]
@@ -158,8 +162,13 @@ let probe_model (a : args) : (sb_expr * sb_st) option =
     Some ((if mk then SbArray [ e; marker ] else e), fixture [] t [ (nm f, SbVOpaque) ])
   | "global" ->
     let g = nm (hexs a "name") in
-    let e = SbVariable g in
+    let e = SbVariable (g, []) in
     Some ((if mk then SbArray [ e; marker ] else e), fixture [ (g, SbVOpaque) ] ty_dict [])
+  | "using" ->
+    (* `using <object>` followed by the bare name of one of its fields *)
+    let t = nm (hexs a "ty") and f = hexs a "field" in
+    let e = SbVariable (nm f, [ var "sbrecv" ]) in
+    Some ((if mk then SbArray [ e; marker ] else e), fixture [] t [ (nm f, SbVOpaque) ])
   | "retobj" ->
     (* the expression itself only hands back a reference; what the console handler then serialises is outside
        the evaluator (finding F-C19-c) *)
@@ -227,6 +236,7 @@ let oracle_c19 script trace =
                 | "call" -> "call:" ^ hexs a "fn"
                 | "ctor" -> "ctor:" ^ hexs a "ty"
                 | "read" -> "read:" ^ hexs a "ty" ^ "." ^ hexs a "field"
+                | "using" -> "using:" ^ hexs a "ty" ^ "." ^ hexs a "field"
                 | "global" -> "global:" ^ hexs a "name"
                 | "retobj" -> "retobj:" ^ hexs a "ty"
                 | k -> k in
